@@ -11,6 +11,8 @@
 //	runtime.Gosched()                       ->  verifYield("<site>"); runtime.Gosched()
 //	syscall.Close(fd)                       ->  verifSysClose("<site>", fd); <stmt containing it>
 //	cb(args…)  (cb of a user callback type) ->  verifCb("<site>", true, "<callee>"); <stmt>; verifCb("<site>", false, "<callee>")
+//	time.NewTimer(d) / t.Reset(d) / t.Stop() ->  verifNewTimer("<site>", d) / verifTimerReset("<site>", t, d) / verifTimerStop("<site>", t)
+//	sendmsg(fd, bs, ivs, zc)                ->  verifSendmsg("<site>", fd, bs, ivs, zc)   (the scheduler scripts the kernel's answer)
 //
 // <site> = "<receiver.func>#<k>", k = ordinal of the operation in package syncops' list for that function:
 // the same list tools/extract writes to facts.json / Gen/Life.lean.
@@ -62,6 +64,7 @@ type fileCtx struct {
 	sites []Site
 	name  string
 	atoms map[string]*types.Func // atomic functions used -> signature
+	extra map[string]bool        // optional helper groups used: "timer", "sendmsg"
 }
 
 func (fc *fileCtx) off(p token.Pos) int { return fc.fset.Position(p).Offset }
@@ -285,6 +288,24 @@ func instrumentFile(fc *fileCtx, srcBytes []byte) {
 					fc.ins(st.End(), "; verifCb("+sid+", false, "+lit(o.Fn)+")")
 				}
 				site.Instrumented = true
+			case syncops.KTimer:
+				call := n.(*ast.CallExpr)
+				sel := call.Fun.(*ast.SelectorExpr)
+				switch o.Fn {
+				case "NewTimer":
+					fc.repl(call.Pos(), call.Lparen+1, "verifNewTimer("+sid+", ")
+				case "Reset":
+					fc.repl(call.Pos(), call.Lparen+1, "verifTimerReset("+sid+", "+fc.src(sel.X, srcBytes)+", ")
+				case "Stop":
+					fc.repl(call.Pos(), call.End(), "verifTimerStop("+sid+", "+fc.src(sel.X, srcBytes)+")")
+				}
+				fc.extra["timer"] = true
+				site.Instrumented = true
+			case syncops.KKernel:
+				call := n.(*ast.CallExpr)
+				fc.repl(call.Pos(), call.Lparen+1, "verifSendmsg("+sid+", ")
+				fc.extra["sendmsg"] = true
+				site.Instrumented = true
 			default:
 				site.Note = "not a schedule point (listed for the fingerprint only)"
 			}
@@ -325,10 +346,10 @@ func typeStr(t types.Type) string {
 }
 
 // helper source: hook interface + one wrapper per atomic function used
-func hooksFile(pkgName string, atoms map[string]*types.Func) string {
+func hooksFile(pkgName string, atoms map[string]*types.Func, extra map[string]bool) string {
 	var b strings.Builder
 	b.WriteString("// GENERATED by /verif/tools/instrument. Overlaid into the package at build time; not part of /repo.\n\n")
-	b.WriteString("package " + pkgName + "\n\nimport (\n\t\"sync/atomic\"\n\t\"unsafe\"\n)\n\n")
+	b.WriteString("package " + pkgName + "\n\nimport (\n\t\"sync/atomic\"\n\t\"syscall\"\n\t\"time\"\n\t\"unsafe\"\n)\n\n")
 	b.WriteString(`// verifHooks is implemented by the controlled scheduler (go/inpkg/sched.go). With verifHook == nil every
 // helper below just performs the operation.
 type verifHooks interface {
@@ -345,6 +366,13 @@ type verifHooks interface {
 	Cb(site string, enter bool, callee string)
 	// SysClose is the point before close(2).
 	SysClose(site string, fd int)
+	// TimerPre is the schedule point before time.NewTimer (t == nil) / t.Reset / t.Stop; TimerPost reports the operation
+	// just done (op = "new" | "reset" | "stop"; res = what Reset/Stop returned).
+	TimerPre(site, op string, t *time.Timer)
+	TimerPost(site, op string, t *time.Timer, res bool)
+	// Sendmsg is the schedule point before the package's sendmsg wrapper; handled=true means the hook has played the
+	// kernel (scripted acceptance) and (n, err) is the answer.
+	Sendmsg(site string, fd int, bs [][]byte, ivs []syscall.Iovec, zerocopy bool) (n int, err error, handled bool)
 }
 
 var verifHook verifHooks
@@ -378,6 +406,39 @@ func verifSysClose(site string, fd int) {
 	if h := verifHook; h != nil {
 		h.SysClose(site, fd)
 	}
+}
+
+func verifNewTimer(site string, d time.Duration) *time.Timer {
+	if h := verifHook; h != nil {
+		h.TimerPre(site, "new", nil)
+	}
+	t := time.NewTimer(d)
+	if h := verifHook; h != nil {
+		h.TimerPost(site, "new", t, true)
+	}
+	return t
+}
+
+func verifTimerReset(site string, t *time.Timer, d time.Duration) bool {
+	if h := verifHook; h != nil {
+		h.TimerPre(site, "reset", t)
+	}
+	r := t.Reset(d)
+	if h := verifHook; h != nil {
+		h.TimerPost(site, "reset", t, r)
+	}
+	return r
+}
+
+func verifTimerStop(site string, t *time.Timer) bool {
+	if h := verifHook; h != nil {
+		h.TimerPre(site, "stop", t)
+	}
+	r := t.Stop()
+	if h := verifHook; h != nil {
+		h.TimerPost(site, "stop", t, r)
+	}
+	return r
 }
 
 func verifValueLoad(site string, v *atomic.Value) interface{} {
@@ -446,6 +507,17 @@ func verifValueStore(site string, v *atomic.Value, x interface{}) {
 			fmt.Fprintf(&b, "\tr := atomic.%s(%s)\n\tif h := verifHook; h != nil {\n\t\th.Post(site, %q, unsafe.Pointer(a0), %s, %s, int64(r))\n\t}\n\treturn r\n}\n\n", n, strings.Join(call, ", "), n, a, bb)
 		}
 	}
+	if extra["sendmsg"] {
+		b.WriteString(`func verifSendmsg(site string, fd int, bs [][]byte, ivs []syscall.Iovec, zerocopy bool) (int, error) {
+	if h := verifHook; h != nil {
+		if n, err, ok := h.Sendmsg(site, fd, bs, ivs, zerocopy); ok {
+			return n, err
+		}
+	}
+	return sendmsg(fd, bs, ivs, zerocopy)
+}
+`)
+	}
 	return b.String()
 }
 
@@ -491,6 +563,7 @@ func main() {
 		os.Remove(f)
 	}
 	atoms := map[string]*types.Func{}
+	extra := map[string]bool{}
 	var sites []Site
 	done := map[string]bool{}
 	for _, f := range p.Syntax {
@@ -504,7 +577,7 @@ func main() {
 			fmt.Fprintln(os.Stderr, err)
 			os.Exit(2)
 		}
-		fc := &fileCtx{fset: p.Fset, info: p.TypesInfo, file: f, name: base, atoms: atoms}
+		fc := &fileCtx{fset: p.Fset, info: p.TypesInfo, file: f, name: base, atoms: atoms, extra: extra}
 		instrumentFile(fc, src)
 		res := apply(src, fc.edits)
 		if err := os.WriteFile(filepath.Join(*out, base), res, 0o644); err != nil {
@@ -519,7 +592,7 @@ func main() {
 			fmt.Fprintf(os.Stderr, "instrument: %s is not a file of the package under linux/amd64 (skipped)\n", f)
 		}
 	}
-	if err := os.WriteFile(filepath.Join(*out, "zz_verif_hooks.go"), []byte(hooksFile(p.Name, atoms)), 0o644); err != nil {
+	if err := os.WriteFile(filepath.Join(*out, "zz_verif_hooks.go"), []byte(hooksFile(p.Name, atoms, extra)), 0o644); err != nil {
 		fmt.Fprintln(os.Stderr, err)
 		os.Exit(2)
 	}
